@@ -1,0 +1,12 @@
+//go:build verif
+
+package events
+
+// Contracts for the hvc verifier (/verif). Comment-only.
+//
+// C11: sessions are replayed to a new operator from the agent table (active agents only), so the
+// "new session" event itself must never be retained: it is a one-shot session event.
+//@ func (d demons) NewDemon(Agent *agent.Agent) (pk packager.Package)
+//@   requires nonnil: Agent != nil && Agent.Info != nil
+//@   pure
+//@   ensures oneshot: pk.Head.OneTime == "true" && pk.Head.Event == packager.Type.Session.Type && pk.Body.SubEvent == packager.Type.Session.NewSession
